@@ -212,6 +212,13 @@ func (w *world) inject(vs []uint64, closeIt bool) {
 	}
 }
 
+// safeToRetryErr mimics pgconn's errors that implement SafeToRetry() == true (pgconn.SafeToRetry looks
+// for this method through the error chain)
+type safeToRetryErr struct{}
+
+func (safeToRetryErr) Error() string     { return "conn busy" }
+func (safeToRetryErr) SafeToRetry() bool { return true }
+
 type fakeMgr struct{ w *world }
 
 func (m *fakeMgr) get(start bool, lsn uint64) (conn.Conn, error) {
@@ -390,6 +397,12 @@ func (c *fakeConn) ReceiveMessage(ctx context.Context) (pgproto3.BackendMessage,
 		c.closed = true
 		return nil, errors.New("conn closed")
 	case "other-err":
+		// an error on a connection that stays open, neither a timeout nor a closure: fatal for the client.
+		// Every third one is of the kind pgconn marks "safe to retry" (nothing was sent: e.g. its connection
+		// lock errors) - for the client, which only READS here, that changes nothing: it cannot be retried
+		if c.w.pos%3 == 0 {
+			return nil, safeToRetryErr{}
+		}
 		return nil, errors.New("unexpected EOF")
 	case "error-response":
 		return &pgproto3.ErrorResponse{Severity: "ERROR", Message: "could not decode"}, nil
@@ -717,6 +730,7 @@ func monitor(c Case, log []Obs) []core.Violation {
 	keyOfBegin := map[string]bool{}
 	commitsPerKey := map[string]int{}
 	expectBeginNext := false
+	fatalSeen, fatalAt := "", 0
 	// the blocked event being handled, if any: its scripted batches, how many status updates the
 	// client has sent since the receive, how many it owes before the harness makes room (with
 	// BlockedClose the last tick fails instead of sending)
@@ -749,6 +763,10 @@ func monitor(c Case, log []Obs) []core.Violation {
 				add("C17", "client-hangs", "the client did not stop within 20 s of a fatal event")
 			}
 		case "recv":
+			if fatalSeen != "" {
+				add("C17", "client-survives-unrecoverable-connection-error", fmt.Sprintf("log position %d: the client read from the connection again after %s (event %d), which cannot be retried; it must raise the termination signal and stop", i, fatalSeen, fatalAt))
+				fatalSeen = ""
+			}
 			if pendingReply {
 				add("C18", "reply-requested-not-answered-before-next-read", fmt.Sprintf("log position %d: the client read again without answering a keepalive that requested a reply", i))
 			}
@@ -756,6 +774,9 @@ func monitor(c Case, log []Obs) []core.Violation {
 			k++
 			if k < len(script) {
 				e := script[k]
+				if e.Kind == "other-err" || e.Kind == "unexpected" || (e.Kind == "keepalive-bad" && k > 0) {
+					fatalSeen, fatalAt = e.Kind, k
+				}
 				register(e.Inject, e.PClose)
 				if len(e.Blocked) > 0 {
 					// batch 0 is put on the progress channel inside this receive
